@@ -106,8 +106,9 @@ class Cases:
         else:
             cand = [n for n in names] + [r.choice(self.timed + self.timeless)]
             mt = [n for n in cand if r.random() < 0.6]
-        return dict(mode=r.choice(['D', 'I', 'D', 'I', 'N']), mt=mt, entries=entries, scale=r.choice([1, 1, 4, 8]),
-                    mt_as=r.choice(['type', 'class']), mt_container=r.choice(['list', 'tuple', 'set']), origin='random')
+        return dict(mode=r.choice(['D', 'I', 'D', 'I', 'N']), mt=mt, entries=entries, scale=r.choice([1, 4, 8, 10, 10, 1000, 3]),
+                    mt_as=r.choice(['type', 'class', 'mixed']), mt_container=r.choice(['list', 'tuple', 'set']),
+                    mode_form=r.choice(['member', 'member', 'int', 'np']), call=r.choice(['class', 'class', 'instance', 'keyword']), origin='random')
 
 
 # ------------------------------------------------------------------------------------------------
@@ -146,7 +147,7 @@ def split_impl(s):
         return s, [], ''
     main, _, adv = s.partition(' | ')
     words = main.split(' ')
-    flags = [w for w in words if w in ('MUTATED', 'RET', 'KEYS', 'EARLIER', 'REREAD')]
+    flags = [w for w in words if w in ('MUTATED', 'RET', 'KEYS', 'EARLIER', 'REREAD', 'ARGMUT')]
     return ' '.join(w for w in words if w not in flags), flags, adv
 
 
@@ -188,7 +189,8 @@ def classify(case, impl, spec, spec_codeflags, tabn):
     return sig
 
 
-CASE_KEYS = ('mode', 'mt', 'mt_as', 'mt_container', 'scale', 'entries', 'steps', 'via', 'tmpdir', 'read_as', 'extra_entries', 'pre', 'pre_requested')
+CASE_KEYS = ('mode', 'mt', 'mt_as', 'mt_container', 'scale', 'entries', 'steps', 'via', 'tmpdir', 'read_as', 'extra_entries', 'pre', 'pre_requested',
+             'mode_form', 'call')
 
 
 def impl_json(case):
@@ -317,9 +319,15 @@ def sig_of(case, obs, flags, spec_e, spec_c_e, tabn):
 
 
 def run(ctx):
-    consts = gen_c15.generate()
-    ctx.notes.append('generated constants: %r' % consts)
-    if not ctx.coq():
+    try:
+        consts = gen_c15.generate()
+        ctx.notes.append('generated constants: %r' % consts)
+        ctx.obligation('translator gen_c15 understood the source', True, 'translator')
+    except Exception as e:
+        # a translator failure is a failed obligation; the search for a failing input still runs
+        ctx.obligation('translator gen_c15 understood the source', False, 'translator', repr(e)[:400])
+        ctx.broken_proof('translators/gen_c15.py failed: %r' % (e,))
+    if not ctx.coq() and not getattr(ctx, 'pending_broken', None):
         ctx.broken_proof()
     model = vf.build_extracted('c15', 'C15', 'c15_driver.ml')
     tab = class_table()
@@ -384,6 +392,49 @@ def run(ctx):
     for _ in range(4000 if ctx.thorough else 400):
         c = G.random_case(120, 60)
         G.cases.append(c)
+
+    # ---- checklist shapes -----------------------------------------------------------------------------------
+    # empty selection in every container form aligns nothing; an aligned type without messages in every position
+    for mode in MODES:
+        for cont in ('list', 'tuple', 'set'):
+            names = r.sample(T, 3)
+            G.cases.append(dict(mode=mode, mt=[], mt_as='type', mt_container=cont, scale=1, origin='checklist',
+                                entries=[G.entry(n, m) for n, m in zip(names, G.ids([[1, 2], [2, 3], [3]]))]))
+        for nt in (2, 3, 4):
+            for pos in range(nt):
+                names = r.sample(T, nt)
+                times = [[] if k == pos else sorted(r.sample(range(8), r.randint(1, 5))) for k in range(nt)]
+                for mt in (None, list(names)):
+                    G.cases.append(dict(mode=mode, mt=mt, mt_as=r.choice(['type', 'class']), mt_container='list', scale=r.choice([1, 10]),
+                                        origin='checklist', entries=[G.entry(n, m) for n, m in zip(names, G.ids(times))]))
+    # every type misses >= 2 epochs of a union of 8..12 (the ORDER of the result matters), fractional steps 0.1 / 0.3 / 1e-3
+    # (inserted defaults must carry exactly the other types' stamps), messages given in disorder
+    for _ in range(2000 if ctx.thorough else 300):
+        nt = r.choice([2, 3, 4])
+        names = r.sample(T, nt)
+        size = r.randint(8, 12)
+        step = r.choice([1, 3, 7])
+        union = [step * k + r.choice([0, 0, 1]) * 0 for k in range(1, size + 1)]
+        times = []
+        for k in range(nt):
+            keep = [t for t in union if r.random() < 0.6]
+            while len(union) - len(set(keep)) < 2 and keep:
+                keep.pop(r.randrange(len(keep)))
+            if r.random() < 0.4:
+                r.shuffle(keep)
+            times.append(keep)
+        G.cases.append(dict(mode=r.choice(MODES), mt=r.choice([None, None, list(names), list(names[:-1])]), mt_as=r.choice(['type', 'class', 'mixed']),
+                            mt_container=r.choice(['list', 'tuple', 'set']), scale=r.choice([10, 10, 1000, 3, 1]),
+                            mode_form=r.choice(['member', 'int', 'np']), call=r.choice(['class', 'instance', 'keyword']), origin='checklist',
+                            entries=[G.entry(n, m) for n, m in zip(names, G.ids(times))]))
+    # large unions (>= 64 epochs)
+    for _ in range(200 if ctx.thorough else 24):
+        nt = r.choice([2, 3, 4])
+        names = r.sample(T, nt)
+        times = [r.sample(range(400), r.randint(64, 160)) for _ in range(nt)]
+        times = [t if r.random() < 0.5 else sorted(t) for t in times]
+        G.cases.append(dict(mode=r.choice(MODES), mt=r.choice([None, list(names)]), mt_as='type', mt_container='list', scale=r.choice([1, 10, 1000]),
+                            origin='checklist-large', entries=[G.entry(n, m) for n, m in zip(names, G.ids(times))]))
 
     # ---- histories on the same MessageData objects (to_numpy before/between, repeated alignments) ---------
     seqs = []
@@ -507,7 +558,9 @@ def run(ctx):
                             'message types without payload class; random dicts of 2-4 types with up to 12 and up to 120 messages, unsorted and repeated stamps, '
                             'dyadic non-integer stamps (scale 4, 8), message_types given as types or classes in list/tuple/set, including types not in the dict. '
                             'Also: histories of 2-4 steps on the same MessageData objects (to_numpy before/between steps, changing mode and selection), judged after every step; '
-                            'and the property observed through DataLoader.read(time_align, aligned_message_types) on generated log files, selection given as types, classes or mixed, on a fresh loader and inside multi-call histories on one caching loader '
+                            'and the property observed through DataLoader.read(time_align, aligned_message_types) on generated log files, selection given as types, classes or mixed; empty selections in list/tuple/set; a type without messages in every position; every type missing >= 2 epochs of a union of 8..12 incl. disorder; '
+                            'fractional epochs (steps 0.1, 0.3, 1e-3: times are printed as grid indices only when bit-for-bit equal to a case timestamp); unions of >= 64 epochs; '
+                            'mode as member / int / numpy integer; call on the class, on an instance, by keyword; the message_types argument must not be modified; on a fresh loader and inside multi-call histories on one caching loader '
                             '(read(X); read(Y, Z, time_align, aligned None|subset); read(X) again: aligned result = SPEC on the requested types only, earlier results untouched, re-read = fresh read). '
                             'Identity is observed with `is`, content by a structural snapshot of every attribute before and after, inserted messages against a '
                             'fresh cls(). A case is distinct by (mode, message_types, per-type stamp lists).'
